@@ -116,6 +116,19 @@ CHECKS["C06"] = dict(level="model_checking", ref="DESIGN.md 5 C06", tech=TECH2,
          "key and private values in clear, and mode bits outside objectstore.umask (several umasks, both backends).",
     note="Trusted: TLC, vf/tokdec.py, libcrypto. Key classes: generic secret and X.509 certificate. An empty byte "
          "string may be stored in either form; a private copy re-uses the ciphertext of unchanged values.")
+CHECKS["C16"] = dict(level="fault_enumeration", ref="DESIGN.md 5 C16",
+    tech="TLA+ specification of the file-operation protocol (StoreFS, StoreMP) + LD_PRELOAD crash injection at every "
+         "file-system operation + TLC trace validation of operation logs and recovery outcomes",
+    text="Every crash point of every writing call is enumerated on the real library: the LD_PRELOAD shim records the "
+         "call's file-system operations (validated by TLC against the StoreFS protocol: data only under the write "
+         "lock, truncate then flush before unlock, nothing else in between) and kills the process before each "
+         "operation k; a fresh time-limited process recovers; TLC computes from the operation log what each file "
+         "holds at k and demands the required outcome (usable, untouched objects and PINs intact, written object old "
+         "or new) or exactly a deviation that is listed as a known finding. StoreMP.tla shows at design level that "
+         "the as-built truncate-then-write protocol violates CrashOldOrNew and an atomic variant satisfies it.",
+    note="Trusted: TLC, harness/fsshim.c (crash = _exit before the operation: process death, buffered data lost), the "
+         "recovery probe. File backend; objects below the stdio buffer size. Four known findings (in-place rewrite "
+         "windows and multi-step creation) are reported as KNOWN-FINDING; anything else is a VIOLATION.")
 NA = {
     "C17": "memory safety and arbitrary byte-level inputs are outside what a TLA+ specification and trace validation can "
            "observe (DESIGN.md 5 C17); crashes met while replaying are reported under the property whose check ran",
